@@ -2,6 +2,7 @@ package rules
 
 import (
 	"fmt"
+	"go/constant"
 	"go/types"
 	"regexp"
 	"sort"
@@ -307,6 +308,13 @@ func checkUnfiltered(r *core.Run, m string, gs *types.Named, st *types.Struct, e
 // closure that appends its argument and never asks to stop). In both forms the
 // record must be decoded into a variable that is fresh in every iteration.
 func getterExportsAll(r *core.Run, g *ssa.Function) string {
+	return getterExportsAllCtx(r, g, nil)
+}
+
+// getterExportsAllCtx: alwaysTrue lists parameters of g that, at the call under consideration, are bound to a
+// predicate that accepts everything (a function literal all of whose returns are the constant true): a test of such
+// a predicate skips nothing.
+func getterExportsAllCtx(r *core.Run, g *ssa.Function, alwaysTrue map[*ssa.Parameter]bool) string {
 	// a paginated walk is never complete: query.Paginate turns a nil / zero-limit page request into DefaultLimit (100)
 	for f := range r.P.CG.Reach(g) {
 		res := r.Resolver(f)
@@ -323,8 +331,14 @@ func getterExportsAll(r *core.Run, g *ssa.Function) string {
 	loops := cfgx.Loops(g)
 	if len(loops) == 0 {
 		// the walk may be delegated to a helper outside the vocabulary whose result is returned as it is
-		if h := returnsResultOf(r, g); h != nil {
-			return getterExportsAll(r, h)
+		if h, call := returnsResultOfCall(r, g); h != nil {
+			at := map[*ssa.Parameter]bool{}
+			for i, a := range call.Call.Args {
+				if i < len(h.Params) && acceptsEverything(r, a) {
+					at[h.Params[i]] = true
+				}
+			}
+			return getterExportsAllCtx(r, h, at)
 		}
 		return getterViaCallback(r, g)
 	}
@@ -345,7 +359,18 @@ func getterExportsAll(r *core.Run, g *ssa.Function) string {
 			}
 		}
 	}
-	if len(app) == 0 || !cutsAllCycles(l, app) {
+	// the false edge of a test of an accept-everything predicate is never taken
+	skip := map[cfgx.Edge]bool{}
+	for b := range l.Body {
+		if iff := cfgx.IfOf(b); iff != nil && len(b.Succs) == 2 {
+			if c, ok := iff.Cond.(*ssa.Call); ok {
+				if p, ok := c.Call.Value.(*ssa.Parameter); ok && alwaysTrue[p] {
+					skip[cfgx.Edge{From: b, To: b.Succs[1]}] = true
+				}
+			}
+		}
+	}
+	if len(app) == 0 || !cutsAllCyclesE(l, app, skip) {
 		return "some iteration of its loop does not append the record (a filter or continue skips it)"
 	}
 	return staleDecode(r, g, l)
@@ -801,6 +826,86 @@ func ruleGenesisPairs(r *core.Run, id, m string) {
 		}
 	}
 	r.Count("genesis_scalar_pairs_"+m, n)
+}
+
+// cutsAllCyclesE: like cutsAllCycles, never following the given edges.
+func cutsAllCyclesE(l *cfgx.Loop, removed map[*ssa.BasicBlock]bool, skip map[cfgx.Edge]bool) bool {
+	if len(skip) == 0 {
+		return cutsAllCycles(l, removed)
+	}
+	if removed[l.Header] {
+		return true
+	}
+	seen := map[*ssa.BasicBlock]bool{}
+	var st []*ssa.BasicBlock
+	push := func(from *ssa.BasicBlock) {
+		for _, s := range from.Succs {
+			if l.Body[s] && !removed[s] && !skip[cfgx.Edge{From: from, To: s}] {
+				st = append(st, s)
+			}
+		}
+	}
+	push(l.Header)
+	for len(st) > 0 {
+		b := st[len(st)-1]
+		st = st[:len(st)-1]
+		if b == l.Header {
+			return false
+		}
+		if seen[b] {
+			continue
+		}
+		seen[b] = true
+		push(b)
+	}
+	return true
+}
+
+// acceptsEverything: the value is a function literal (or function) all of whose returns are the constant true.
+func acceptsEverything(r *core.Run, v ssa.Value) bool {
+	f := funcOfValue(r, v)
+	if f == nil || len(f.Blocks) == 0 {
+		return false
+	}
+	n := 0
+	for _, b := range f.Blocks {
+		if ret, ok := b.Instrs[len(b.Instrs)-1].(*ssa.Return); ok {
+			if len(ret.Results) != 1 {
+				return false
+			}
+			c, isC := ret.Results[0].(*ssa.Const)
+			if !isC || c.Value == nil || c.Value.Kind() != constant.Bool || !constant.BoolVal(c.Value) {
+				return false
+			}
+			n++
+		}
+	}
+	return n > 0
+}
+
+// returnsResultOfCall: like returnsResultOf, also handing back the call.
+func returnsResultOfCall(r *core.Run, g *ssa.Function) (*ssa.Function, *ssa.Call) {
+	var h *ssa.Function
+	var call *ssa.Call
+	for _, b := range g.Blocks {
+		ret, ok := b.Instrs[len(b.Instrs)-1].(*ssa.Return)
+		if !ok {
+			continue
+		}
+		if len(ret.Results) != 1 {
+			return nil, nil
+		}
+		c, ok := ret.Results[0].(*ssa.Call)
+		if !ok {
+			return nil, nil
+		}
+		f := c.Call.StaticCallee()
+		if f == nil || f == g || !r.P.Transparent(f) || len(f.Blocks) == 0 || (h != nil && h != f) {
+			return nil, nil
+		}
+		h, call = f, c
+	}
+	return h, call
 }
 
 // returnsResultOf: every return of g hands back, unmodified, the result of one call of a transparent helper.
